@@ -24,6 +24,10 @@
 #include <thread>
 #include <mutex>
 #include <unordered_map>
+#include <condition_variable>
+#include <map>
+#include <set>
+#include <functional>
 #include <cmath>
 #include <sys/file.h>
 #include <fcntl.h>
@@ -39,7 +43,13 @@ struct CkInfo {
 	Checkable::Ptr obj;
 	std::string name;       // config name (host or host!svc)
 	int mode = 0;           // 0 ok, 1 critical, 2 flip ok/critical every 2 runs, 3 throws, 4 ok but every 3rd result is stamped older than the stored one (rejected)
-	long dur_us = 0;        // how long the check command sleeps
+	long dur_us = 0;        // how long the check command sleeps (synchronous) / how long the "process" lives (asynchronous)
+	int kind = 0;           // 0 synchronous: the result is processed before Execute() returns; 1 asynchronous: Execute() returns at
+	                        // once, the result is handed to ProcessCheckResult later by another thread (as PluginCheckTask's process callback does)
+	bool tl = false;        // timeline case: the command blocks on / the result waits for a gate that the script opens
+	std::atomic<bool> gateOpen{true};
+	std::atomic<int> blocked{0};         // synchronous executions sitting in the gate
+	std::atomic<long> nS{0}, nD{0}, nC{0};   // starts, processed results, clears of force_next_check
 	long ci_us = 0, ri_us = 0;
 	std::atomic<unsigned long> gen{0};   // seqlock: odd while a driver op on this checkable is in flight
 	std::atomic<long> runs{0};
@@ -89,35 +99,24 @@ long l_PcrNo = 0;
 long l_DefStarted = 0;
 CheckResult::Ptr l_DefCr;
 
-void SchCheckFn(const Checkable::Ptr& checkable, const CheckResult::Ptr& cr, const Dictionary::Ptr&, bool)
+// ------------------------------------------------------------------ asynchronous executions
+// A native stand-in for PluginCheckTask: ScriptFunc spawns the "process", counts the slot (IncreasePendingChecks) and returns;
+// when the process ends another thread runs what ProcessFinishedHandler does: DecreasePendingChecks, then ProcessCheckResult.
+struct AsyncJob { int id; Checkable::Ptr ck; CheckResult::Ptr cr; long run; };
+std::mutex l_AsyncMutex;
+std::condition_variable l_AsyncCV;
+std::multimap<double, AsyncJob> l_AsyncQ;       // by due time
+std::map<int, AsyncJob> l_AsyncHeld;            // timeline cases: waiting for the gate of checkable id
+std::vector<std::thread> l_AsyncThreads;
+int l_AsyncActive = 0;
+bool l_AsyncFlush = false;
+std::atomic<long> l_AsyncAlive{0};              // launched, slot not yet counted down
+std::mutex l_GateMutex;
+std::condition_variable l_GateCV;
+
+void FinishExecution(CkInfo& ci, int id, const Checkable::Ptr& checkable, const CheckResult::Ptr& cr, long run)
 {
-	if (l_PcrCk && checkable == l_PcrCk) {
-		l_DefStarted++;
-		l_DefCr = cr;
-		return;
-	}
-	int id = IndexOf(checkable.get());
-	if (id < 0 || !l_Running.load()) {
-		// not ours (left-over from an earlier case): behave like a fast OK check
-		cr->SetState(ServiceOK);
-		checkable->ProcessCheckResult(cr);
-		return;
-	}
-	CkInfo& ci = *l_Cks[id];
-	{
-		// lateness of this execution relative to the time it was scheduled for (schedule_start = next_check at dispatch);
-		// only for calm checkables, whose next_check is never stale
-		long t = NowUs();
-		long late = ci.calm ? std::max(0L, t - ToUs(cr->GetScheduleStart())) : -1;
-		Record({'S', t, id, late, ToUs(cr->GetScheduleStart()), Tid()});
-	}
-	if (ci.dur_us > 0)
-		Utility::Sleep(ci.dur_us / 1e6);
-	long run = ci.runs.fetch_add(1);
-	Record({'E', NowUs(), id});
 	tl_Ctx = Ctx{checkable.get(), NowUs(), 1};
-	if (ci.mode == 3)
-		throw std::runtime_error("sch: check command throws by configuration");
 	ServiceState st = ServiceOK;
 	if (ci.mode == 1) st = ServiceCritical;
 	if (ci.mode == 2) st = ((run / 2) % 2) ? ServiceCritical : ServiceOK;
@@ -137,7 +136,119 @@ void SchCheckFn(const Checkable::Ptr& checkable, const CheckResult::Ptr& cr, con
 	}
 	checkable->ProcessCheckResult(cr);
 	tl_Ctx = Ctx{};
+	ci.nD++;
 	Record({'D', NowUs(), id});   // result processing of this execution is over (accepted or rejected)
+}
+
+void AsyncDeliver(const AsyncJob& j)
+{
+	if (j.id < 0 || j.id >= (int)l_Cks.size()) return;
+	CkInfo& ci = *l_Cks[j.id];
+	Record({'E', NowUs(), j.id});
+	l_AsyncAlive--;
+	Checkable::DecreasePendingChecks();
+	FinishExecution(ci, j.id, j.ck, j.cr, j.run);
+}
+
+void AsyncWorker()
+{
+	Utility::SetThreadName("sch async");
+	std::unique_lock<std::mutex> lock(l_AsyncMutex);
+	for (;;) {
+		if (l_AsyncQ.empty()) { l_AsyncCV.wait(lock); continue; }
+		double due = l_AsyncQ.begin()->first, now = Utility::GetTime();
+		if (due > now && !l_AsyncFlush) { l_AsyncCV.wait_for(lock, std::chrono::duration<double>(std::min(due - now, 0.05))); continue; }
+		AsyncJob j = l_AsyncQ.begin()->second;
+		l_AsyncQ.erase(l_AsyncQ.begin());
+		l_AsyncActive++;
+		lock.unlock();
+		try { AsyncDeliver(j); } catch (const std::exception&) { }
+		lock.lock();
+		l_AsyncActive--;
+		l_AsyncCV.notify_all();
+	}
+}
+
+void AsyncEnsureWorkers()   // with l_AsyncMutex held
+{
+	if (l_AsyncThreads.empty())
+		for (int i = 0; i < 3; i++) { l_AsyncThreads.emplace_back(AsyncWorker); l_AsyncThreads.back().detach(); }
+}
+
+void AsyncPush(double due, AsyncJob j)
+{
+	std::unique_lock<std::mutex> lock(l_AsyncMutex);
+	AsyncEnsureWorkers();
+	l_AsyncQ.emplace(due, std::move(j));
+	l_AsyncCV.notify_all();
+}
+
+// deliver everything that is still outstanding (end of a run) and wait for it
+void AsyncFlushAll()
+{
+	std::unique_lock<std::mutex> lock(l_AsyncMutex);
+	if (!l_AsyncHeld.empty() || !l_AsyncQ.empty()) AsyncEnsureWorkers();
+	for (auto& kv : l_AsyncHeld) l_AsyncQ.emplace(0.0, kv.second);
+	l_AsyncHeld.clear();
+	l_AsyncFlush = true;
+	l_AsyncCV.notify_all();
+	while (!l_AsyncQ.empty() || l_AsyncActive > 0) l_AsyncCV.wait_for(lock, std::chrono::milliseconds(20));
+	l_AsyncFlush = false;
+}
+
+void SchCheckFn(const Checkable::Ptr& checkable, const CheckResult::Ptr& cr, const Dictionary::Ptr& resolvedMacros, bool useResolvedMacros)
+{
+	// command_endpoint branch of ExecuteCheck: the command is only asked to resolve its macros (PluginUtility::ExecuteCommand
+	// returns at `if (resolvedMacros && !useResolvedMacros)'), nothing is executed here
+	if (resolvedMacros && !useResolvedMacros)
+		return;
+	if (l_PcrCk && checkable == l_PcrCk) {
+		l_DefStarted++;
+		l_DefCr = cr;
+		return;
+	}
+	int id = IndexOf(checkable.get());
+	if (id < 0 || !l_Running.load()) {
+		// not ours (left-over from an earlier case): behave like a fast OK check
+		cr->SetState(ServiceOK);
+		checkable->ProcessCheckResult(cr);
+		return;
+	}
+	CkInfo& ci = *l_Cks[id];
+	{
+		// lateness of this execution relative to the time it was scheduled for (schedule_start = next_check at dispatch);
+		// only for calm checkables, whose next_check is never stale
+		long t = NowUs();
+		long late = ci.calm ? std::max(0L, t - ToUs(cr->GetScheduleStart())) : -1;
+		ci.nS++;
+		Record({'S', t, id, late, ToUs(cr->GetScheduleStart()), Tid()});
+	}
+	long run = ci.runs.fetch_add(1);
+	if (ci.kind == 1) {
+		// asynchronous: count the slot like PluginCheckTask::ScriptFunc and return; m_CheckRunning stays set
+		l_AsyncAlive++;
+		Checkable::IncreasePendingChecks();
+		AsyncJob j{id, checkable, cr, run};
+		if (ci.tl) {
+			std::unique_lock<std::mutex> lock(l_AsyncMutex);
+			if (!ci.gateOpen.load()) { l_AsyncHeld[id] = j; return; }
+		}
+		AsyncPush(Utility::GetTime() + ci.dur_us / 1e6, j);
+		return;
+	}
+	if (ci.tl) {
+		std::unique_lock<std::mutex> lock(l_GateMutex);
+		ci.blocked++;
+		while (!ci.gateOpen.load()) l_GateCV.wait_for(lock, std::chrono::milliseconds(50));
+		ci.blocked--;
+	} else if (ci.dur_us > 0)
+		Utility::Sleep(ci.dur_us / 1e6);
+	Record({'E', NowUs(), id});
+	if (ci.mode == 3) {
+		tl_Ctx = Ctx{checkable.get(), NowUs(), 1};
+		throw std::runtime_error("sch: check command throws by configuration");
+	}
+	FinishExecution(ci, id, checkable, cr, run);
 }
 
 void InitOnce()
@@ -172,6 +283,15 @@ void InitOnce()
 		Record({'N', id, tl_Ctx.t0, t1, next, std::max(ci.ci_us, ci.ri_us), 0});
 		tl_Ctx = Ctx{};
 	});
+	// force_next_check consumed (set to false): in the code as modelled this PRECEDES the ExecuteCheck it belongs to
+	Checkable::OnForceNextCheckChanged.connect([](const Checkable::Ptr& c, const Value&) {
+		if (!l_Running.load()) return;
+		if (c->GetForceNextCheck()) return;
+		int id = IndexOf(c.get());
+		if (id < 0) return;
+		l_Cks[id]->nC++;
+		Record({'C', NowUs(), id});
+	});
 	// end of ProcessCheckResult, same thread: the post-state is final (a result exists now by definition)
 	Checkable::OnNewCheckResult.connect([](const Checkable::Ptr& c, const CheckResult::Ptr&, const MessageOrigin::Ptr&) {
 		if (!l_Running.load()) return;
@@ -179,7 +299,7 @@ void InitOnce()
 		int id = IndexOf(c.get());
 		if (id < 0) return;
 		CkInfo& ci = *l_Cks[id];
-		if (ci.mode == 3) Record({'D', NowUs(), id});   // thrown: ProcessCheckResult runs in ExecuteCheckHelper's catch block
+		if (ci.mode == 3) { ci.nD++; Record({'D', NowUs(), id}); }   // thrown: ProcessCheckResult runs in ExecuteCheckHelper's catch block
 		if (!tl_Ctx.have) return;
 		long I = (c->GetStateType() == StateTypeSoft) ? ci.ri_us : ci.ci_us;
 		Record({'N', id, tl_Ctx.t0, tl_Ctx.t1, tl_Ctx.next, I, 1});
@@ -422,6 +542,11 @@ VOP(sch_run)
 	int tp = a.num("tp", 8);
 	long imin = a.num("imin", 50), imax = a.num("imax", 400);
 	int slowPct = a.num("slow", 20), thrPct = a.num("thr", 10), stalePct = a.num("stale", 10);
+	// asynchronous check commands (percent of the checkables).  Of those, as long as the budget lasts (a quarter of the slots, none
+	// below max_concurrent_checks 4: they hold their slot most of the time): 25 % run LONGER than their interval, 15 % do not
+	// return before a "timeout" of three intervals - the checkable is back in the idle set all that time and comes up again and again
+	int asyncPct = a.num("async", 0);
+	int slowBudget = a.num("max", 4) >= 4 ? (int)a.num("max", 4) / 4 : 0;
 	// quiet=1|2: no storm.  max is small, checkable 1 is slow and holds the slot; while its check runs it is paused (1) or
 	// deleted (2); nothing else happens afterwards.  The completion that frees the slot then notifies nobody
 	// (ExecuteCheckHelper only notifies if the checkable is still in pending): the other, due checkables must
@@ -469,6 +594,20 @@ VOP(sch_run)
 		int m = (int)rng.range(0, 99);
 		ci.mode = m < thrPct ? 3 : (m < thrPct + 15 ? 1 : (m < thrPct + 45 ? 2 : (m < thrPct + 45 + stalePct ? 4 : 0)));
 		ci.dur_us = rng.chance(slowPct) ? rng.range(dlo, dhi) * 1000 : (rng.chance(30) ? rng.range(1, 5) * 1000 : 0);
+		ci.kind = 0;
+		if (asyncPct > 0 && !quiet) {
+			// drawn in any case: the stream of random numbers (and with it everything else) does not depend on the budget
+			bool as = rng.chance(asyncPct);
+			int sub = (int)rng.range(0, 99);
+			long f1 = rng.range(120, 250), f2 = rng.range(0, 200);
+			if (as && ci.mode != 3) {
+				ci.kind = 1;
+				long imx = std::max(ci.ci_us, ci.ri_us);
+				if (sub < 60 || slowBudget <= 0) ci.dur_us = rng.range(1, 10) * 1000;
+				else if (sub < 85) { ci.dur_us = imx * f1 / 100; slowBudget--; }
+				else { ci.dur_us = 3 * imx + f2 * 1000; slowBudget--; }
+			}
+		}
 		if (quiet) {
 			ci.mode = 0;
 			ci.dur_us = (id == 1) ? a.num("hold", 500) * 1000 : 0;
@@ -597,7 +736,9 @@ VOP(sch_run)
 			} else if (op < 56) {    // force (API reschedule-check force=true)
 				long tf = NowUs();   // BEFORE the request: the forced check may start before SetNextCheck() returns
 				for (auto& fr : forced) if (fr.c == c && fr.until < 0) fr.until = tf;   // a new request re-keys c (next_check = now): it supersedes the older one
+				Record({'R', tf, c, 0});
 				touch(c, [&](CkInfo& k) { k.obj->SetForceNextCheck(true); k.obj->SetNextCheck(Utility::GetTime()); });
+				Record({'R', NowUs(), c, 1});
 				if (!ci.paused) forced.push_back({c, tf, -1, NowUs()});
 			} else if (op < 70) {    // enable_active_checks
 				touch(c, [&](CkInfo& k) { k.enabled = !k.enabled; k.obj->SetEnableActiveChecks(k.enabled); });
@@ -637,6 +778,7 @@ VOP(sch_run)
 	// stop the scheduler thread, then let every queued/running check finish
 	static_pointer_cast<ConfigObject>(checker)->Deactivate(true);
 	DrainThreadPool();
+	AsyncFlushAll();   // asynchronous executions still outstanding deliver their result now
 	l_Running.store(false);
 	long pcount = Checkable::GetPendingChecks();
 	size_t nidle, npend;
@@ -648,7 +790,9 @@ VOP(sch_run)
 
 	{
 		std::ostringstream o;
-		o << "cfg max=" << maxc << " n=" << n << " slack=" << slack_us << " dmax=" << dmax_us << " end=" << tEnd;
+		int nas = 0, nlong = 0;
+		for (int c = 0; c < n; c++) { if (l_Cks[c]->kind == 1) { nas++; if (l_Cks[c]->dur_us > std::max(l_Cks[c]->ci_us, l_Cks[c]->ri_us)) nlong++; } }
+		o << "cfg max=" << maxc << " n=" << n << " slack=" << slack_us << " dmax=" << dmax_us << " end=" << tEnd << " async=" << nas << " asynclong=" << nlong;
 		Out(o.str());
 	}
 	for (const Rec& r : l_Recs) {
@@ -657,6 +801,8 @@ VOP(sch_run)
 			case 'S': o << "S " << r.a << " " << r.b << " " << r.c << " " << r.d << " " << r.e; break;
 			case 'X': o << "X " << r.a << " " << r.b << " " << r.c; break;
 			case 'D': o << "D " << r.a << " " << r.b; break;
+			case 'C': o << "C " << r.a << " " << r.b; break;
+			case 'R': o << "R " << r.a << " " << r.b << " " << r.c; break;
 			case 'E': o << "E " << r.a << " " << r.b; break;
 			case 'P': o << "P " << r.a << " " << r.s; break;
 			case 'N': o << "N " << r.a << " " << r.b << " " << r.c << " " << r.d << " " << r.e << " " << r.f; break;
@@ -703,3 +849,249 @@ VOP(sch_run)
 	l_Cks.clear();
 	if (slotFd >= 0) { flock(slotFd, LOCK_UN); close(slotFd); }
 }
+
+// ------------------------------------------------------------------ timelines (family tl)
+// A quiet scenario: 1-3 hosts that only run when forced or explicitly enabled, whose check command (synchronous or
+// asynchronous) runs exactly until the script opens its gate.  Every script step is applied to the REAL objects while the real
+// scheduler thread and the real pool run; after each step the harness waits until the system is STABLE - a condition read from
+// the real state (idle/pending under m_Mutex, m_PendingChecks, force_next_check), not from any expectation - and prints one
+// line with the number of executions started/finished, force_next_check and the set each checkable is in.  The model executes
+// the same steps with the extracted step function and must print the same lines.
+namespace {
+struct TlState {
+	bool active = false;
+	CheckerComponent::Ptr checker;
+	std::string cname;
+	int n = 0, maxc = 1;
+	long step = 0;
+	int slotFd = -1;
+} l_Tl;
+
+std::string TlLine(bool timeout)
+{
+	std::vector<const Checkable *> idle, pend;
+	int pcount;
+	{
+		std::unique_lock<std::mutex> lock(l_Tl.checker->m_Mutex);
+		pcount = Checkable::GetPendingChecks();
+		for (const CheckableScheduleInfo& csi : l_Tl.checker->m_IdleCheckables) idle.push_back(csi.Object.get());
+		for (const CheckableScheduleInfo& csi : l_Tl.checker->m_PendingCheckables) pend.push_back(csi.Object.get());
+	}
+	std::ostringstream o;
+	o << "tl " << l_Tl.step << (timeout ? " UNSTABLE" : "") << " pc=" << pcount;
+	for (int c = 0; c < l_Tl.n; c++) {
+		CkInfo& ci = *l_Cks[c];
+		char w = '-';
+		for (auto p : idle) if (p == ci.obj.get()) w = 'i';
+		for (auto p : pend) if (p == ci.obj.get()) w = (w == 'i') ? 'B' : 'p';
+		o << " c" << c << ":s=" << ci.nS.load() << ",d=" << ci.nD.load() << ",cl=" << ci.nC.load()
+		  << ",f=" << (ci.obj->GetForceNextCheck() ? 1 : 0) << ",w=" << w;
+	}
+	return o.str();
+}
+
+// one sample of the stability condition; sig = what must not change while we watch
+bool TlStableSample(std::string& sig)
+{
+	std::set<const Checkable *> idle, pend;
+	int pcount;
+	{
+		std::unique_lock<std::mutex> lock(l_Tl.checker->m_Mutex);
+		pcount = Checkable::GetPendingChecks();
+		for (const CheckableScheduleInfo& csi : l_Tl.checker->m_IdleCheckables) idle.insert(csi.Object.get());
+		for (const CheckableScheduleInfo& csi : l_Tl.checker->m_PendingCheckables) pend.insert(csi.Object.get());
+	}
+	bool ok = true;
+	long nblocked = 0;
+	std::ostringstream o;
+	for (int c = 0; c < l_Tl.n; c++) {
+		CkInfo& ci = *l_Cks[c];
+		const Checkable *p = ci.obj.get();
+		long S = ci.nS.load(), D = ci.nD.load();
+		bool force = ci.obj->GetForceNextCheck();
+		int bl = ci.blocked.load();
+		nblocked += bl;
+		bool inflight = S > D;
+		bool free_slot = pcount < l_Tl.maxc;
+		if (pend.count(p) && bl == 0) ok = false;                                  // a helper of c is under way
+		if (idle.count(p) && !ci.paused && force && free_slot) ok = false;         // a forced check is owed and can start
+		if (!ci.paused && ci.enabled && ci.inperiod && !inflight && free_slot) ok = false;   // a regular check is due soon
+		if (ci.gateOpen.load() && inflight) ok = false;                             // an ungated execution is finishing
+		o << S << "," << D << "," << ci.nC.load() << "," << force << "," << bl << "," << (idle.count(p) ? 'i' : (pend.count(p) ? 'p' : '-')) << ";";
+	}
+	if (pcount != nblocked + l_AsyncAlive.load()) ok = false;                      // some ExecuteCheckHelper is between count-up and count-down
+	o << pcount;
+	sig = o.str();
+	return ok;
+}
+
+bool TlWaitStable()
+{
+	double t0 = Utility::GetTime();
+	double window = 0.15, since = -1;
+	std::string sig0;
+	for (;;) {
+		double t = Utility::GetTime();
+		if (t - t0 > 20) return false;
+		std::string sig;
+		bool ok = TlStableSample(sig);
+		if (!ok) since = -1;
+		else if (sig != sig0 || since < 0) since = t;
+		else if (t - since >= window) return true;
+		sig0 = sig;
+		Utility::Sleep(0.01);
+		double over = Utility::GetTime() - t - 0.01;
+		if (over > 0.03) { since = -1; window = std::min(1.0, std::max(window, 5 * over)); }   // the machine stalls: watch longer
+	}
+}
+
+void TlEmit()
+{
+	bool st = TlWaitStable();
+	Out(TlLine(!st));
+	l_Tl.step++;
+}
+
+void TlFinish(bool print)
+{
+	if (!l_Tl.active) return;
+	l_Tl.active = false;
+	// stop the scheduler thread first (nothing new is dispatched), then open every gate and let everything in flight finish
+	static_pointer_cast<ConfigObject>(l_Tl.checker)->Deactivate(true);
+	for (int c = 0; c < l_Tl.n; c++) l_Cks[c]->gateOpen.store(true);
+	{ std::unique_lock<std::mutex> lock(l_GateMutex); l_GateCV.notify_all(); }
+	DrainThreadPool();
+	AsyncFlushAll();
+	l_Running.store(false);
+	long pcount = Checkable::GetPendingChecks();
+	size_t npend;
+	{
+		std::unique_lock<std::mutex> lock(l_Tl.checker->m_Mutex);
+		npend = l_Tl.checker->m_PendingCheckables.size();
+	}
+	if (print) {
+		// the order of the records is the order in which their critical sections were entered (one mutex): happens-before
+		for (const Rec& r : l_Recs) {
+			std::ostringstream o;
+			switch (r.k) {
+				case 'S': o << "tlev S " << r.b; break;
+				case 'E': o << "tlev E " << r.b; break;
+				case 'X': o << "tlev X " << r.b << " " << r.c; break;
+				case 'C': o << "tlev C " << r.b; break;
+				case 'D': o << "tlev D " << r.b; break;
+				default: continue;
+			}
+			Out(o.str());
+		}
+		std::ostringstream o;
+		o << "tl end pcount=" << pcount << " pend=" << npend;
+		for (int c = 0; c < l_Tl.n; c++) o << " c" << c << ":s=" << l_Cks[c]->nS.load() << ",d=" << l_Cks[c]->nD.load();
+		Out(o.str());
+	}
+	for (int c = l_Tl.n - 1; c >= 0; c--) if (l_Cks[c]->obj) CkRemoveObject(l_Cks[c]->obj);
+	{
+		std::unique_lock<std::mutex> lock(l_Tl.checker->m_Mutex);
+		l_Tl.checker->m_IdleCheckables.clear();
+		l_Tl.checker->m_PendingCheckables.clear();
+	}
+	l_OldCheckers.push_back(l_Tl.checker);
+	static_pointer_cast<ConfigObject>(l_Tl.checker)->Unregister();
+	ConfigItem::Ptr item = ConfigItem::GetByTypeAndName(l_Tl.checker->GetReflectionType(), l_Tl.cname);
+	if (item) item->Unregister();
+	l_Tl.checker = nullptr;
+	{ std::unique_lock<std::mutex> lock(l_IndexMutex); l_Index.clear(); }
+	l_Cks.clear();
+	l_Recs.clear();
+}
+} // namespace
+
+// sch_tl_new n=<1..3> max=<m> iv=<ms> kinds=<s|a per checkable> gates=<o|c per checkable>
+VOP(sch_tl_new)
+{
+	InitOnce();
+	TlFinish(false);
+	Utility::VerifSetTime(-1);
+	long runNo = ++l_RunNo;
+	l_Tl = TlState();
+	l_Tl.n = a.num("n", 1);
+	l_Tl.maxc = a.num("max", 2);
+	long iv_us = a.num("iv", 150) * 1000;
+	std::string kinds = a.str("kinds", "s"), gates = a.str("gates", "c");
+	ScriptGlobal::Set("MaxConcurrentChecks", l_Tl.maxc);
+	Configuration::Concurrency = 2;
+	DrainThreadPool();
+	l_Cks.clear();
+	{ std::unique_lock<std::mutex> lock(l_IndexMutex); l_Index.clear(); }
+	l_Recs.clear();
+	l_T0 = Utility::GetTime();
+	l_Tl.cname = "schtlchecker" + std::to_string(runNo);
+	LoadConfig("object CheckerComponent \"" + l_Tl.cname + "\" { }\n");
+	l_Tl.checker = ConfigObject::GetObject<CheckerComponent>(l_Tl.cname);
+	if (!l_Tl.checker) throw std::runtime_error("sch_tl: no checker");
+	std::ostringstream cfg;
+	for (int c = 0; c < l_Tl.n; c++) {
+		l_Cks.emplace_back(new CkInfo());
+		CkInfo& ci = *l_Cks[c];
+		ci.tl = true;
+		ci.kind = (c < (int)kinds.size() && kinds[c] == 'a') ? 1 : 0;
+		ci.gateOpen.store(c < (int)gates.size() && gates[c] == 'o');
+		ci.ci_us = ci.ri_us = iv_us;
+		ci.name = "schtl" + std::to_string(runNo) + "h" + std::to_string(c);
+		cfg << "object Host \"" << ci.name << "\" {\n  check_command = \"schcmd\"\n  max_check_attempts = 1\n  enable_flapping = false\n"
+		    << "  enable_active_checks = false\n  check_interval = " << (iv_us / 1e6) << "\n  retry_interval = " << (iv_us / 1e6) << "\n}\n";
+	}
+	l_Running.store(true);
+	l_Tl.active = true;
+	LoadConfig(cfg.str());
+	for (int c = 0; c < l_Tl.n; c++) {
+		CkInfo& ci = *l_Cks[c];
+		Checkable::Ptr o = Host::GetByName(ci.name);
+		if (!o) throw std::runtime_error("sch_tl: object not created: " + ci.name);
+		{ std::unique_lock<std::mutex> lock(l_IndexMutex); l_Index[o.get()] = c; }
+		ci.obj = o;
+		ci.exists = true; ci.paused = true; ci.enabled = false; ci.inperiod = true;
+	}
+	for (int c = 0; c < l_Tl.n; c++) { l_Cks[c]->obj->SetAuthority(true); l_Cks[c]->paused = false; }
+	TlEmit();
+}
+
+// sch_tl_do op=force|enable|disable|close|open|pause|resume|release|hold|resched c=<i>
+VOP(sch_tl_do)
+{
+	if (!l_Tl.active) throw std::runtime_error("sch_tl_do without sch_tl_new");
+	int c = a.num("c", 0);
+	if (c < 0 || c >= l_Tl.n) throw std::runtime_error("sch_tl_do: no such checkable");
+	CkInfo& k = *l_Cks[c];
+	std::string op = a.str("op");
+	if (op == "force") { k.obj->SetForceNextCheck(true); k.obj->SetNextCheck(Utility::GetTime()); }
+	else if (op == "enable") { k.enabled = true; k.obj->SetEnableActiveChecks(true); }
+	else if (op == "disable") { k.enabled = false; k.obj->SetEnableActiveChecks(false); }
+	else if (op == "close") { k.inperiod = false; k.obj->SetCheckPeriodRaw("sch_never"); }
+	else if (op == "open") { k.inperiod = true; k.obj->SetCheckPeriodRaw(""); }
+	else if (op == "pause") { k.obj->SetAuthority(false); k.paused = true; }
+	else if (op == "resume") { k.obj->SetAuthority(true); k.paused = false; }
+	else if (op == "resched") { k.obj->SetNextCheck(Utility::GetTime()); }
+	else if (op == "hold") { k.gateOpen.store(false); }
+	else if (op == "release") {
+		k.gateOpen.store(true);
+		{ std::unique_lock<std::mutex> lock(l_GateMutex); l_GateCV.notify_all(); }
+		bool have = false;
+		AsyncJob j;
+		{
+			std::unique_lock<std::mutex> lock(l_AsyncMutex);
+			auto it = l_AsyncHeld.find(c);
+			if (it != l_AsyncHeld.end()) { j = it->second; l_AsyncHeld.erase(it); have = true; }
+		}
+		if (have) AsyncPush(0.0, j);
+	}
+	else throw std::runtime_error("sch_tl_do: unknown op " + op);
+	TlEmit();
+}
+
+VOP(sch_tl_end)
+{
+	if (!l_Tl.active) throw std::runtime_error("sch_tl_end without sch_tl_new");
+	TlFinish(true);
+}
+
+static struct SchTlCaseEnd { SchTlCaseEnd() { RegisterCaseEnd([]() { TlFinish(false); }); } } l_SchTlCaseEnd;
